@@ -183,6 +183,8 @@ func (p *Proj) renderAtom(b *strings.Builder, a *Atom) {
 		} else {
 			fmt.Fprintf(b, "def %s(x):\n    return [x, %s%s]\n", a.Name, a.Lit, refs)
 		}
+	case "rfunc": // a recursive helper (one of the globals of its own code)
+		fmt.Fprintf(b, "def %s(x):\n    return [%s] if x <= 0 else %s(x - 1)\n", a.Name, a.Lit, a.Name)
 	case "factory":
 		refs := strings.Join(a.Refs, ", ")
 		if refs != "" {
@@ -463,6 +465,9 @@ func (g *Gen) Project() *Proj {
 			fn.Def = fmt.Sprint(r.IntN(500))
 		}
 		f.Atoms = append(f.Atoms, fn)
+		if r.IntN(3) == 0 {
+			f.Atoms = append(f.Atoms, &Atom{Name: "rec" + tag, File: f.ID, Kind: "rfunc", Lit: g.Literal("")})
+		}
 		for lib := range f.Loads {
 			if r.IntN(2) == 0 {
 				f.Atoms = append(f.Atoms, &Atom{Name: "cl" + tag + lib, File: f.ID, Kind: "closure", Lit: fmt.Sprint(r.IntN(70000)), Refs: []string{lib + "_mk"}})
@@ -575,7 +580,7 @@ func (g *Gen) use(t *Tgt, a *Atom) {
 		if strings.HasPrefix(a.Lit, "list(range(") {
 			expr = "len(" + a.Name + ")" // keep repr small; the value still enters the environment
 		}
-	case "func":
+	case "func", "rfunc":
 		expr = fmt.Sprintf("%s(%d)", a.Name, g.R.IntN(9))
 	case "factory":
 		expr = fmt.Sprintf("%s(%d)()", a.Name, g.R.IntN(9))
